@@ -208,12 +208,55 @@ def _blocking_release(cap: int, pol: str, prefill: int, timeout):
     return None
 
 
+def _multi_reader(seed, n_readers: int, per_reader: int, cap: int, pol: str):
+    """Several readers blocked in get_next_signal(None) and one publisher, under the deterministic scheduler:
+    every reader must be handed a signal as soon as one is queued (no reader stays parked while signals wait)."""
+    from harness.simworld import run_scenario
+    from harness import detsched as D
+    from qmi.core.pubsub import QMI_SignalReceiver, QMI_SignalMessage
+    from qmi.core.messaging import QMI_MessageHandlerAddress
+    got = []
+    total = n_readers * per_reader
+
+    def body(w):
+        policy = QMI_SignalReceiver.DISCARD_OLD if pol == "old" else QMI_SignalReceiver.DISCARD_NEW
+        rx = QMI_SignalReceiver(max_queue_length=cap, discard_policy=policy)
+        src = QMI_MessageHandlerAddress("ctxP", "pub")
+        dst = QMI_MessageHandlerAddress("ctxR", "$pubsub")
+
+        def reader():
+            for _ in range(per_reader):
+                s = rx.get_next_signal(timeout=None)
+                got.append(s.receiver_seqnr)
+
+        def publisher():
+            for i in range(total):
+                # never overrun the queue: the scenario is about wake-ups, not about drops
+                while rx.get_queue_length() >= cap:
+                    D.SCHED.yield_point("pub.backoff", blocked_on=lambda: len(rx._queue) < cap)
+                rx._receive_signal(QMI_SignalMessage(src, dst, "sig", (i,)))
+        ths = [w.spawn(reader, f"reader{i}") for i in range(n_readers)] + [w.spawn(publisher, "publisher")]
+        for t in ths:
+            t.join()
+        return True
+
+    out = run_scenario(seed, body, policy="pct" if hash(str(seed)) % 2 else "weighted", max_steps=20000)
+    if out.deadlock:
+        return "reader-parked-although-signal-queued", sorted(got)
+    if out.error is not None or out.budget:
+        return f"multi-reader-harness:{type(out.error).__name__ if out.error else 'budget'}", sorted(got)
+    if sorted(got) != list(range(total)):
+        return "readers-got-wrong-signals", sorted(got)
+    return None, sorted(got)
+
+
 class C09(Prop):
     id = "C09"
     lean_modules = ["QmiModel.Props.C09"]
     driver = "drv_c09"
     modelled_not_verified = [
-        "threading.Condition (blocking get_next_signal is exercised with real threads, not modelled)",
+        "threading.Condition: blocking get_next_signal (one reader with real threads; several readers + publisher under the "
+        "deterministic scheduler) is exercised by the harness, not part of the sequential Lean model (the wait/notify protocol is C11's model)",
         "collections.deque(maxlen) semantics (model: dequeAppend; differentially checked here)",
     ]
 
@@ -274,6 +317,17 @@ class C09(Prop):
                     if c:
                         res.failures.append(Failure(f"queue:{c}", f"blocked reader cap={cap} {pol} timeout={timeout}: {c}",
                                                     {"kind": "block", "cap": cap, "policy": pol, "timeout": timeout}))
+        # several blocked readers + a publisher under the deterministic scheduler (all interleavings sampled)
+        seen = set()
+        for i in range(ctx.scale(300, 6000)):
+            nr, per, cap, pol = ctx.rng.choice([2, 2, 3]), ctx.rng.choice([1, 2]), ctx.rng.choice([1, 2, 4]), ctx.rng.choice(["old", "new"])
+            c, got = _multi_reader(f"{ctx.seed}:{i}", nr, per, cap, pol)
+            res.note_case(("multi", nr, per, cap, pol, i % 50))
+            res.count("multi_reader_runs")
+            if c and c not in seen:
+                seen.add(c)
+                res.failures.append(Failure(f"queue:{c}", f"{nr} blocked readers x {per} reads, cap={cap} {pol}: {c} (delivered {got})",
+                                            {"kind": "multi", "seed": f"{ctx.seed}:{i}", "readers": nr, "per": per, "cap": cap, "policy": pol}))
         return res
 
     def search(self, ctx: Ctx, broken) -> Result:
@@ -301,7 +355,9 @@ class C09(Prop):
         return res
 
     def replay(self, ctx: Ctx, rp: dict):
-        if rp.get("kind") == "block":
+        if rp.get("kind") == "multi":
+            c, _ = _multi_reader(rp["seed"], rp["readers"], rp["per"], rp["cap"], rp["policy"])
+        elif rp.get("kind") == "block":
             c = _blocking_release(rp["cap"], rp["policy"], 1, rp["timeout"])
         else:
             c = _oracle(rp["cap"], rp["policy"], _run_impl(rp["cap"], rp["policy"], rp["ops"], rp.get("base", 0))[2], rp.get("base", 0))
